@@ -181,6 +181,11 @@ def run_download(mode, n, script, cbmode, tmpdir):
       ret = cmds.download(io.StringIO(image), source_len=n, info_cb=cb, progress_callback=pc)
     elif mode == 'filelike_nolen':
       ret = cmds.download(io.StringIO(image), info_cb=cb, progress_callback=pc)
+    elif mode == 'filelike_offset':
+      # the image sits behind a container header in the same file object: what counts is what lies behind the current position
+      src = io.StringIO('HDR!' * 75 + image)
+      src.seek(300)
+      ret = cmds.download(src, info_cb=cb, progress_callback=pc)
     elif mode == 'filelike_short':
       ret = cmds.download(ShortSource(image), source_len=n, info_cb=cb, progress_callback=pc)
     elif mode == 'path':
@@ -296,7 +301,7 @@ def work_items(tier):
   sizes = [0, 1, CHUNK - 1, CHUNK, CHUNK + 1, 2 * CHUNK - 1, 2 * CHUNK, 2 * CHUNK + 1]
   if tier == 'thorough':
     sizes += [3 * CHUNK, 3 * CHUNK + 5, 255, 256]
-  for mode in ('filelike_len', 'filelike_nolen', 'filelike_short', 'path', 'flash_from_file'):
+  for mode in ('filelike_len', 'filelike_nolen', 'filelike_short', 'filelike_offset', 'path', 'flash_from_file'):
     for n in sizes:
       for cbmode in ('none', 'recording', 'raising'):
         if tier == 'quick' and cbmode == 'none' and mode != 'filelike_len':
